@@ -219,6 +219,17 @@ func (ex *Exec) runPath(prefix []int) {
 	if end.kind == "return" && ex.solver != nil && len(ex.Samples) < ex.SampleEvery && isPow2(ex.PathsByEnd["return"]+1) {
 		ex.samplePath()
 	}
+	if end.kind == "budget" && ex.solver != nil && ex.Fixed == nil {
+		// The step budget ran out on a path whose loops take no symbolic decision: either a long concrete computation
+		// or a loop that does not terminate for these inputs. A model of the path is kept as a "hang" candidate; the
+		// caller replays it natively under a time limit and reports it only if the real code does not finish either.
+		id := ex.Harness.Name() + "#termination" // one per harness: the first path that exhausts the budget
+		if ex.Cands[id] == nil {
+			ex.checkSatModel(ex.b.True, func(m map[string]interface{}) {
+				ex.recordCandidate(id, "hang", "terminates", nil, token.NoPos, m, "")
+			})
+		}
+	}
 	for k := range ex.pathFlags {
 		ex.Flags[k]++
 	}
